@@ -830,6 +830,12 @@ func (c *compiler) floatsOperator(l float64, r float64, op string) (interface{},
 func (c *compiler) stringsOperator(l string, r interface{}, op string) (interface{}, error) {
 	rr := fmt.Sprint(r)
 
+	if op != "+" && reflect.TypeOf(r).Kind() != reflect.String {
+		// only + takes the printed form of any right operand; a string is
+		// compared with and matched against strings
+		return nil, fmt.Errorf("unable to operate (%s) on %T and %T ", op, l, r)
+	}
+
 	switch op {
 	case "+":
 		return l + rr, nil
